@@ -404,11 +404,10 @@ theorem step_refines (kb : KB A C) (op : Op A C) (h : Inv kb) :
   | list => exact ⟨rfl, by intro r hr; simp [specStep] at hr, h⟩
   | getCoinbase =>
     simp only [step, specStep]
-    cases hc : kb.coinbase with
-    | some e => exact ⟨rfl, by intro r hr; simp at hr, h⟩
-    | none =>
-      cases hd : kb.db with
-      | nil => exact ⟨rfl, by intro r hr; simp at hr, h⟩
+    split
+    · exact ⟨rfl, by intro r hr; simp at hr, inv_coinbase kb _ h⟩
+    · cases hd : kb.db with
+      | nil => exact ⟨by funext b; simp [abs, hd], by intro r hr; simp at hr, by simpa [hd] using inv_coinbase kb none h⟩
       | cons kv rest =>
         refine ⟨?_, by intro r hr; simp at hr, ?_⟩
         · funext b; simp [abs, hd]
